@@ -280,6 +280,7 @@ func (c *probeCheck) invalidProbe(run *histRun, next []stepIntent, rng *core.Rng
 		} else {
 			// the server does not enforce this instance: whether it should is C04's question; undo and go on
 			run.res.Count("invalid_probe_accepted(C04)", 1)
+			run.res.Count("invalid_probe_accepted(C04):"+p.class+fmt.Sprintf("/mode%d", mode), 1)
 		}
 		if !dry {
 			run.ds.TransactionCancel(run.ctx, id)
